@@ -99,13 +99,15 @@ func runParser(ctx context.Context, cfg *shipped.ParserConfig, src string, buf [
 func checkParser(ctx context.Context, cfg *shipped.ParserConfig, src string, buf []shipped.Event) ([]shipped.Finding, parseResult) {
 	res, perr := runParser(ctx, cfg, src, buf)
 	pre := fmt.Sprintf("%s parser, input %s: ", cfg.Name, shipped.Quote(src))
+	// Keys name the parser (tm, js, json, test), not the way it is driven; the configuration is
+	// part of the message and of the replay case.
 	if perr != nil {
-		return []shipped.Finding{{Key: cfg.Name + ":panic:" + core.PanicSite(perr), What: pre + perr.Error()}}, res
+		return []shipped.Finding{{Key: cfg.Lang + ":panic:" + core.PanicSite(perr), What: pre + perr.Error()}}, res
 	}
 	if res.aborted {
-		return []shipped.Finding{{Key: cfg.Name + ":unbounded-events", What: pre + fmt.Sprintf("more than %d listener/error-handler calls", 256*(len(src)+4))}}, res
+		return []shipped.Finding{{Key: cfg.Lang + ":unbounded-events", What: pre + fmt.Sprintf("more than %d listener/error-handler calls", 256*(len(src)+4))}}, res
 	}
-	fs := shipped.CheckEvents(cfg.Name, cfg.TypeName, len(src), res.events)
+	fs := shipped.CheckEvents(cfg.Lang, cfg.TypeName, len(src), res.events)
 	for i := range fs {
 		fs[i].What = pre + fs[i].What
 	}
